@@ -717,6 +717,12 @@ def r01_14(run, model, rid="R01.14", file_re=None):
 
 
 def run(run, model):
+    # the linked program is emitted Go too: lambda lifting reads callee signatures in concatenation order, so a link order other than
+    # dependency-first leaves a closure-returning import ill-typed (shared with C14 R14.1), and a unit linked against an interface it was
+    # not built with calls functions at another arity / layout (shared with C15 R15.4)
+    from rules import c14 as _c14l, c15 as _c15l
+    run.try_rule(_c14l.r14_1, model)
+    run.try_rule(_c15l.r15_4, model)
     run.try_rule(r01_6, model)
     trs = P.discover(model, include_pprint=True)
     run.anchor("IR traversals discovered", f"{len(trs)} (function, enum) matches with >=5 explicit variants")
